@@ -345,6 +345,10 @@ def theorems_in(props_v):
 def prove(ctx, pid, extra_targets=()):
     """S3 for one property: build Props/<pid>.vo, scan, audit.  Registers obligations; returns True when all hold."""
     props_v = f"Props/{pid}.v"
+    extra_targets = list(extra_targets)
+    # statement pins (tools/mkpins.py): built with the property so that an edited theorem statement is noticed
+    if os.path.exists(os.path.join(COQ, "Props", f"{pid}_pins.v")) and f"Props/{pid}_pins.vo" not in extra_targets:
+        extra_targets.append(f"Props/{pid}_pins.vo")
     ok, fails, log = coq_build(ctx, [f"Props/{pid}.vo"] + list(extra_targets))
     deps = deps_of(props_v)
     nlem = sum(count_lemmas(os.path.join(COQ, d)) for d in deps)
@@ -383,12 +387,13 @@ def prove(ctx, pid, extra_targets=()):
             ctx.proof_failures.append((props_v, "Print Assumptions", f"{a['theorems']} theorems but {a['prints']} Print Assumptions"))
             ok = False
         # statements pinned?
-        pins = os.path.join(COQ, "Props", "Pins.v")
+        pins = os.path.join(COQ, "Props", f"{pid}_pins.v")
         if os.path.exists(pins):
             ps = open(pins).read()
-            for th in theorems_in(props_v):
-                if not re.search(r"Check\s+\(?@?" + re.escape(th) + r"\b", ps):
-                    ctx.note(f"theorem {th} has no pin in Props/Pins.v")
+            missing = [th for th in theorems_in(props_v) if not re.search(r"Check\s+\(?@?" + re.escape(th) + r"\b", ps)]
+            ctx.cov["statements_pinned"] = len(theorems_in(props_v)) - len(missing)
+            if missing:
+                ctx.note(f"{len(missing)} theorem(s) of {props_v} have no pin in Props/{pid}_pins.v (run tools/mkpins.py {pid}): " + ", ".join(missing[:6]))
     return ok
 
 
